@@ -124,4 +124,36 @@ def Views.bagEq (a b : Views) : Bool :=
   View.bagEq a.keys b.keys && View.bagEq a.strs b.strs && View.bagEq a.lists b.lists &&
   View.bagEq a.sets b.sets && View.bagEq a.hashes b.hashes && View.bagEq a.zsets b.zsets
 
+/-! ### `datetime(ms / 1000, 'unixepoch')`: the text of the `etime` / `mtime` columns -/
+
+/-- days since 1970-01-01 ↦ (year, month, day), proleptic Gregorian calendar -/
+def civilFromDays (z0 : Int) : Int × Int × Int :=
+  let z := z0 + 719468
+  let era := z / 146097
+  let doe := z % 146097
+  let yoe := (doe - doe / 1460 + doe / 36524 - doe / 146096) / 365
+  let y := yoe + era * 400
+  let doy := doe - (365 * yoe + yoe / 4 - yoe / 100)
+  let mp := (5 * doy + 2) / 153
+  let d := doy - (153 * mp + 2) / 5 + 1
+  let m := if mp < 10 then mp + 3 else mp - 9
+  (if m ≤ 2 then y + 1 else y, m, d)
+
+/-- decimal digits of a non-negative number, left-padded with `0` to `w` characters -/
+def padNum (w : Nat) (n : Int) : String :=
+  let s := toString n.toNat
+  String.ofList (List.replicate (w - s.length) '0') ++ s
+
+/-- SQLite's `datetime(ms / 1000, 'unixepoch')` (integer division truncates toward zero):
+`YYYY-MM-DD HH:MM:SS` in UTC; `none` outside the years 0000–9999, where SQLite answers NULL -/
+def sqliteDatetime (ms : Int) : Option String :=
+  let secs := Int.tdiv ms 1000
+  if secs < -62167219200 || secs > 253402300799 then none
+  else
+    let days := secs / 86400
+    let sod := secs % 86400
+    let c := civilFromDays days
+    some (padNum 4 c.1 ++ "-" ++ padNum 2 c.2.1 ++ "-" ++ padNum 2 c.2.2 ++ " " ++
+      padNum 2 (sod / 3600) ++ ":" ++ padNum 2 (sod % 3600 / 60) ++ ":" ++ padNum 2 (sod % 60))
+
 end Redka.Model.View
